@@ -119,15 +119,81 @@ func Solve(f *FuncVC, opts SolveOpts) []*Verdict {
 	tag := sanitizeFile(f.Name)
 	// phase 1: one incremental z3-new run over all pending obligations
 	var obs []*Oblig
+	maxEpoch := 0
 	for _, i := range pending {
 		obs = append(obs, f.Obligs[i])
+		if f.Obligs[i].Epoch > maxEpoch {
+			maxEpoch = f.Obligs[i].Epoch
+		}
 	}
-	script := f.Script(obs, opts.TimeoutMs, false)
-	file := writeScript(opts.WorkDir, tag, script)
 	t0 := time.Now()
-	ctx, cancel := context.WithTimeout(context.Background(), time.Duration(opts.TimeoutMs*(len(obs)+1))*time.Millisecond+5*time.Second)
-	out, _ := runSolver(ctx, "z3-new", file, opts.TimeoutMs)
-	cancel()
+	var out string
+	if maxEpoch > 0 {
+		// The function has forgetting cuts (`option cut-forget`): the obligations generated between two cuts depend only on
+		// the entry facts and on what was generated since the last cut. One incremental session per segment, each over the
+		// cone of influence of its own queries (dropping global assertions is sound for `unsat`, see slice.go); the vacuity
+		// guard is never sliced. The answers are concatenated in obligation order.
+		outs := make([]string, len(obs))
+		groups := map[int][]int{}
+		for k, o := range obs {
+			e := o.Epoch
+			if o.IsCover {
+				e = -1
+			}
+			groups[e] = append(groups[e], k)
+		}
+		var gwg sync.WaitGroup
+		gsem := make(chan struct{}, 3)
+		for e, ks := range groups {
+			gwg.Add(1)
+			go func(e int, ks []int) {
+				defer gwg.Done()
+				gsem <- struct{}{}
+				defer func() { <-gsem }()
+				var gobs []*Oblig
+				for _, k := range ks {
+					gobs = append(gobs, obs[k])
+				}
+				g := *f
+				if e >= 0 {
+					q := ""
+					for _, o := range gobs {
+						q += " " + o.Reach + " " + o.Goal
+					}
+					g.Lines = sliceLines(f.Lines, q)
+				}
+				gfile := writeScript(opts.WorkDir, fmt.Sprintf("%s_seg%d", tag, e+1), g.Script(gobs, opts.TimeoutMs, false))
+				gctx, gcancel := context.WithTimeout(context.Background(), time.Duration(opts.TimeoutMs*(len(gobs)+1))*time.Millisecond+5*time.Second)
+				gout, _ := runSolver(gctx, "z3-new", gfile, opts.TimeoutMs)
+				gcancel()
+				if kd := os.Getenv("GCV_KEEP"); kd != "" {
+					os.Rename(gfile, filepath.Join(kd, filepath.Base(gfile)))
+				}
+				os.Remove(gfile)
+				if strings.Contains(gout, "(error") {
+					outs[ks[0]] = gout
+					return
+				}
+				ans := parseChecks(gout)
+				for j, k := range ks {
+					if j < len(ans) {
+						outs[k] = ans[j]
+					} else {
+						outs[k] = "unknown"
+					}
+				}
+			}(e, ks)
+		}
+		gwg.Wait()
+		out = strings.Join(outs, "\n")
+	} else {
+		script := f.Script(obs, opts.TimeoutMs, false)
+		file := writeScript(opts.WorkDir, tag, script)
+		ctx, cancel := context.WithTimeout(context.Background(), time.Duration(opts.TimeoutMs*(len(obs)+1))*time.Millisecond+5*time.Second)
+		out, _ = runSolver(ctx, "z3-new", file, opts.TimeoutMs)
+		cancel()
+		os.Remove(file)
+	}
 	el := time.Since(t0).Milliseconds()
 	answers := parseChecks(out)
 	if strings.Contains(out, "(error") {
@@ -142,7 +208,6 @@ func Solve(f *FuncVC, opts SolveOpts) []*Verdict {
 		for _, i := range pending {
 			verdicts[i] = &Verdict{Oblig: f.Obligs[i], Status: "error", Solver: "z3-new", Output: msg}
 		}
-		os.Remove(file)
 		return verdicts
 	}
 	var retry []int
@@ -167,7 +232,6 @@ func Solve(f *FuncVC, opts SolveOpts) []*Verdict {
 			retry = append(retry, i)
 		}
 	}
-	os.Remove(file)
 	// phase 2: individual queries raced on all solvers
 	var wg sync.WaitGroup
 	sem := make(chan struct{}, 5)
